@@ -122,7 +122,7 @@ def run(run):
                               for f in facts[:: max(1, len(facts) // 5)]][:5] + run.cov["samples"]
     return run.finish(
         level="proof",
-        rule="static: every access to a shared variable in every fork-join region of lib/query (closures passed to GoroutineTaskManager.Run / EvaluateSequentially, bodies started with go, the parent between fork and join, methods of the manager types), classified and checked by kernel evaluation; dynamic: a load matrix first (CSV, TSV, fixed-length, LTSV, JSONL, JSON; from a file and from stdin; with and without header; row counts 159/161/299/301/650 in the quick tier and 1..2500 around 80, 160, 300, 320, 600, 640 in the thorough tier, on both sides of the 300-record loader buffer and of the 80-rows-per-worker threshold; @@CPU 1, 2, 4, 8), then correlated sub-queries (EXISTS, IN, scalar, NOT EXISTS under GROUP BY) with 10-12 distinct outer-column references over an outer table below and above the per-worker split size, then loads that fail in the middle of a file (surplus field, broken quote, LTSV line without separator, broken / non-object JSON line; at record 2, 350, 690 of 700; file and stdin) and loads cancelled after 50 µs … 8 ms, then inline tables (JSON_INLINE, CSV_INLINE) inside per-record sub-queries and set operations inside a sub-query of a recursive term (F80, F81, both fixed), then the function grid (every built-in scalar function of the Functions map evaluated per record over 700 rows, one type vector per first-argument type, in batches of 8 at @@CPU 2/4/8, plus value-dependent FORMAT / REGEXP / DATETIME / NUMBER_FORMAT calls) and STDIN touched for the first time inside a per-record sub-query (IN, EXISTS, scalar, LATERAL, ORDER BY), then RAND / NOW / JSON_OBJECT, a user-defined function that FETCHes an outer cursor called from a parallel WHERE / select list next to CURSOR … IS OPEN / IS IN RANGE / COUNT (known finding F79), list aggregates WITHIN GROUP ordered by expressions over derived tables with many groups, prepared statements executed USING literals, variables, arithmetic and sub-queries (positional and named placeholders, GROUP BY/HAVING, UPDATE, cursors declared for prepared statements), then statements of 47 kinds (6 file formats, filters, 7 join forms, GROUP BY/HAVING, ORDER BY, DISTINCT, set operators, 4 analytic families, recursive CTE, DML, cursor, 6 failing statements) on tables of 200-3000 rows with @@CPU drawn from 2..8 under the race detector; non-trivial = distinct (statement kind, @@CPU, row band, error code)",
+        rule="static: every access to a shared variable in every fork-join region of lib/query (closures passed to GoroutineTaskManager.Run / EvaluateSequentially, bodies started with go, the parent between fork and join, methods of the manager types), classified and checked by kernel evaluation; dynamic: a load matrix first (CSV, TSV, fixed-length, LTSV, JSONL, JSON; from a file and from stdin; with and without header; row counts 159/161/299/301/650 in the quick tier and 1..2500 around 80, 160, 300, 320, 600, 640 in the thorough tier, on both sides of the 300-record loader buffer and of the 80-rows-per-worker threshold; @@CPU 1, 2, 4, 8), then correlated sub-queries (EXISTS, IN, scalar, NOT EXISTS under GROUP BY) with 10-12 distinct outer-column references over an outer table below and above the per-worker split size, then loads that fail in the middle of a file (surplus field, broken quote, LTSV line without separator, broken / non-object JSON line; at record 2, 350, 690 of 700; file and stdin) and loads cancelled after 50 µs … 8 ms, then inline tables (JSON_INLINE, CSV_INLINE) inside per-record sub-queries and set operations inside a sub-query of a recursive term (F80, F81, both fixed), then the function grid (every built-in scalar function of the Functions map evaluated per record over 700 rows, one type vector per first-argument type, in batches of 8 at @@CPU 2/4/8, plus value-dependent FORMAT / REGEXP / DATETIME / NUMBER_FORMAT calls) and STDIN touched for the first time inside a per-record sub-query (IN, EXISTS, scalar, LATERAL, ORDER BY), then ALTER TABLE ADD with columns without DEFAULT, with sub-query defaults and in every position on a 700-row table, then RAND / NOW / JSON_OBJECT, a user-defined function that FETCHes an outer cursor called from a parallel WHERE / select list next to CURSOR … IS OPEN / IS IN RANGE / COUNT (known finding F79), list aggregates WITHIN GROUP ordered by expressions over derived tables with many groups, prepared statements executed USING literals, variables, arithmetic and sub-queries (positional and named placeholders, GROUP BY/HAVING, UPDATE, cursors declared for prepared statements), then statements of 47 kinds (6 file formats, filters, 7 join forms, GROUP BY/HAVING, ORDER BY, DISTINCT, set operators, 4 analytic families, recursive CTE, DML, cursor, 6 failing statements) on tables of 200-3000 rows with @@CPU drawn from 2..8 under the race detector; non-trivial = distinct (statement kind, @@CPU, row band, error code)",
         trusted_base=BASE_TRUST + [
             "extract/parfacts: syntactic access classification (go/ast + go/types), refuses constructs without a rule; plain function callees of worker closures are not analysed; method summaries are syntactic",
             "the Go memory model, rendered as the lockset race definition of Csvq/Model/ForkJoin.lean",
